@@ -931,9 +931,14 @@ def typecheck_special(ctx):
     env.pop("CARGO_TARGET_DIR", None)
     t0 = time.time()
     rc, out, err = ctx["run"](["cargo", "check", "--offline"], cwd=d, timeout=3600, env=env)
+    cmd = "cd harness/typecheck && cargo check --offline"
+    if rc == 0:
+        # the same assertions with rsdns' optional `socket2` feature (it adds a field to ClientConfig)
+        rc, out, err = ctx["run"](["cargo", "check", "--offline", "--features", "socket2"], cwd=d, timeout=3600, env=env)
+        cmd += " --features socket2"
     src = open(os.path.join(d, "src", "lib.rs")).read()
     per_async = src.count("send(c.query_rrset") + 2 + 2 + 1   # typed + raw + constructor + object(2) + spawnable
-    n_assert = 3 * per_async + 3
+    n_assert = 2 * (3 * per_async + 3 + 2)   # both feature sets
     res = dict(name="typecheck", evaluations=n_assert, distinct_nontrivial=n_assert, wall_s=round(time.time() - t0, 1),
                samples=[dict(assertion="send(c.query_rrset::<Txt>(name, Class::IN)) for clients::{tokio,async_std,smol}::Client, name: &'a str"),
                         dict(assertion="is_send::<Client>(); is_sync::<Client>() for all four clients"),
@@ -943,7 +948,7 @@ def typecheck_special(ctx):
         errs = [l for l in err.split("\n") if l.startswith("error")]
         first = err[err.find("error"):][:3000] if "error" in err else err[-3000:]
         res["failures"].append(dict(id="typecheck", link="impl-vs-spec",
-                                    request="cd harness/typecheck && cargo check --offline",
+                                    request=cmd,
                                     why="rustc rejects a Send/Sync assertion (or the crate no longer compiles): %s" % (errs[0] if errs else "?"),
                                     rustc=first))
     return res
@@ -1183,7 +1188,7 @@ PROPS = {
                    "close, never a short success. Real clients: N around buffer limits, splits inside the prefix, 1-byte segments, early "
                    "close at every position class, trailing bytes; guard-paged caller buffer.",
         level_note="Assumed: read_exact/write_all of std, tokio, async-std, smol satisfy their documented contracts.",
-        streams=[dict(name="c14")],
+        streams=[dict(name="c14"), dict(name="c16")],
         explanation="C14: readExact_spec, tcp_closed_form, tcp_split_invariant, tcp_exact, tcp_short_buffer, tcp_early_close.",
     ),
     "C15": dict(
@@ -1259,7 +1264,8 @@ PROPS = {
                    "type is UnexpectedType) — by a simulation (record_sim, drain_sim, questions_sim; Lemmas/Views.lean). Markers vs "
                    "borrowed vs owned headers and skip vs raw vs typed data positions: C09.pair_follows_pass; typed random access: "
                    "C10.at_closed_form. Comparison involving MessageReader views is limited to ≤ 65535 bytes (MessageReader::new refuses more).",
-        streams=[dict(name="views"), dict(name="nameeq", impl_oracle=nameeq_oracle), dict(name="names", quick=20000)],
+        streams=[dict(name="views"), dict(name="nameeq", impl_oracle=nameeq_oracle), dict(name="names", quick=20000),
+                 dict(name="reader", quick=8000, impl_oracle=purity_oracle), dict(name="readerx", quick=8000, impl_oracle=purity_oracle)],
         explanation="C08: iter_agrees_with_pass, data_eq_dataAt, dataBytes_eq_dataBytesAt (Props/C08Views.lean), nameref_eq_decoded, nameRefEqLoop_spec, eqLabels_iff_nameEq, read_kinds_agree, skip_of_read, walk_congr_mode; streams `views` and `nameeq`.",
     ),
     "C10": dict(
